@@ -200,11 +200,11 @@ Proof. exact sequence_sig. Qed.
 Print Assumptions C05_sequence_signature.
 
 (* ---- findings: the faithful model violates the statement where the code does *)
-(* IdentityEliminationPass does not keep "every graph output is defined in its own graph" (checker rejects) *)
-Theorem C05_identity_elim_valid_refuted :
-  exists m, wfb m = true /\ outputs_localb m = true /\ outputs_localb (identity_elim 12 m) = false.
-Proof. exists wit_ident. exact ident_valid_refuted. Qed.
-Print Assumptions C05_identity_elim_valid_refuted.
+(* 0f568df: the former witness (Identity of an outer-scope value as a subgraph output) is kept: outputs stay local *)
+Theorem C05_identity_elim_outer_scope_witness :
+  wfb wit_ident = true /\ outputs_localb wit_ident = true /\ outputs_localb (identity_elim 12 wit_ident) = true.
+Proof. exact ident_valid_witness. Qed.
+Print Assumptions C05_identity_elim_outer_scope_witness.
 
 (* RemoveUnusedNodesPass with the ONNX schema table changes an attribute of a LIVE node (training_mode) *)
 Theorem C05_dce_batchnorm_refuted :
@@ -215,11 +215,10 @@ Proof.
 Qed.
 Print Assumptions C05_dce_batchnorm_refuted.
 
-(* the CSE key is not injective on attribute values (signed zero, NUL-padded string tensors) *)
-Theorem C05_cse_key_refuted :
-  exists a b, cse_attr_eqb a b = true /\ attr_eqb (snd a) (snd b) = false /\ fst a = fst b.
-Proof. eexists _, _. destruct cse_key_refuted as [[A B] _]. split; [exact A | split; [exact B | reflexivity]]. Qed.
-Print Assumptions C05_cse_key_refuted.
+(* af1d2e4: the CSE key is faithful — equal keys are equal (name, type, value) — and the former witnesses differ *)
+Theorem C05_cse_key_faithful : forall a b, cse_attr_eqb a b = true -> a = b.
+Proof. exact cse_attr_eqb_eq. Qed.
+Print Assumptions C05_cse_key_faithful.
 
 Theorem C05_cse_key_distinguishes_attribute_type :
   cse_attr_eqb ([97], AData TY_INT [1%Z]) ([97], AData TY_FLOAT [4607182418800017408%Z]) = false.
